@@ -85,6 +85,7 @@ pub open spec fn change_views(v: Seq<Change>) -> Seq<Seq<char>> { v.map_values(|
 pub open spec fn opt_change_views(c: Option<Vec<Change>>) -> Option<Seq<Seq<char>>> { match c { Some(v) => Some(change_views(v@)), None => None } }
 impl Config {
     #[verifier::external_body] pub fn get_tracking_path(&self, work_path: &path::Path) -> path::PathBuf { unimplemented!() }
+//!assumed src/core/mod.rs Config::get_target_path_set sha=af4fc913a65ee524
     // ASSUMED (repo function): the set of all configured target paths
     #[verifier::external_body] pub fn get_target_path_set(&self) -> (r: HashSet<&String>) ensures is_all_paths(self.targets@, r@) { unimplemented!() }
 }
